@@ -286,6 +286,30 @@ def firstDiff (a b : Out) : String :=
       | some (x, y) => s!"edge {x.src}>{x.dst} vs {y.src}>{y.dst}"
       | none => "?"
 
+/-- equality of two results up to rounding: same structure (ids, flags, bands, number of route points), every coordinate
+    within 10⁻⁶ (relative to its size); used only for inputs that are not dyadic, where `x + shift` is rounded -/
+def closeR (a b : Rat) : Bool :=
+  let d := if a ≤ b then b - a else a - b
+  let m := (if a < 0 then -a else a) + 1
+  d * 1000000 ≤ m
+
+def approxEqOut (a b : Out) : Bool :=
+  a.nodes.length == b.nodes.length && a.edges.length == b.edges.length &&
+  (a.nodes.zip b.nodes).all (fun (x, y) => x.id == y.id && x.virt == y.virt && x.layer == y.layer && x.comp == y.comp &&
+    closeR x.x y.x && closeR x.y y.y && closeR x.w y.w && closeR x.h y.h) &&
+  (a.edges.zip b.edges).all (fun (e, f) => e.src == f.src && e.dst == f.dst && e.ahs == f.ahs &&
+    match e.pts, f.pts with
+    | none, none => true
+    | some p, some q => p.length == q.length && (p.zip q).all fun (u, w) => closeR u.1 w.1 && closeR u.2 w.2
+    | _, _ => false)
+
+def firstDiffApprox (a b : Out) : String :=
+  if a.nodes.length != b.nodes.length then s!"node count {a.nodes.length} vs {b.nodes.length}"
+  else if a.edges.length != b.edges.length then s!"edge count {a.edges.length} vs {b.edges.length}"
+  else match (a.edges.zip b.edges).find? (fun (e, f) => (e.pts.map (·.length)) != (f.pts.map (·.length))) with
+    | some (e, f) => s!"edge {e.src}>{e.dst}: {(e.pts.map (·.length)).getD 0} route points vs {(f.pts.map (·.length)).getD 0}"
+    | none => "coordinates differ by more than 1e-6 (relative)"
+
 def evalMulti (j : Json) (obs : Json) : E Verdict := do
   let arg ← field j "arg"
   let rel ← (← field arg "rel").getStr?
@@ -313,6 +337,7 @@ def evalMulti (j : Json) (obs : Json) : E Verdict := do
     | none, none => v := v.skip "C17" "both calls failed (C01)"
     | _, _ => v := v.add "C17" false s!"one call failed: {a.fail} / {b.fail}"
   | "union", whole :: parts =>
+    let approx := (fieldOpt arg "approx").isSome
     match whole.out with
     | none =>
       if parts.all (·.out.isSome) then v := v.add "C09" false s!"union failed, parts did not: {whole.fail}"
@@ -332,10 +357,13 @@ def evalMulti (j : Json) (obs : Json) : E Verdict := do
               | some x, some y => x.x - y.x
               | _, _ => 0
             let sw := shiftOut dx rw
-            if sw != op then
+            if approx then
+              if !approxEqOut sw op then
+                ok := false; why := s!"component {c}: " ++ firstDiffApprox sw op
+            else if sw != op then
               ok := false; why := s!"component {c}: " ++ firstDiff sw op
       v := v.add "C09" ok why
-      if whole.cfg.p4 ≤ 3 then v := v.add "C09side" (c09_sideBySide whole.cfg ow) "components-not-side-by-side"
+      if whole.cfg.p4 ≤ 3 && !approx then v := v.add "C09side" (c09_sideBySide whole.cfg ow) "components-not-side-by-side"
   | _, _ => throw s!"bad multi case {rel}"
   pure v
 
